@@ -100,15 +100,35 @@ def o1(W, ob):
     # each loop consumes input: the slice iterator / pos advance is checked below (O2)
 
 
+def _base_local(W, f, var_name='base'):
+    """the delta base of the codec loops: the local called `base`, or -- whatever it is called -- the only byte-buffer local (Vec<u8> / &[u8]) that is defined both in front
+    of the per-input loop and inside it"""
+    for l in range(len(f.locals)):
+        if f.local_name(l) == var_name:
+            return l
+    cx = W.ctx(f)
+    G = W.guards(f)
+    loops = G.loops()
+    if not loops:
+        return None
+    body = max(loops, key=len)
+    cand = []
+    for l in range(f.argc + 1, len(f.locals)):
+        ty = f.local_ty(l) or ''
+        if not (('Vec<u8>' in ty) or ty in ('&[u8]', '&mut [u8]')) or not f.local_name(l):
+            continue
+        dl = [d.bb for k, d in cx.full_defs(l)]
+        if any(b in body for b in dl) and any(b not in body for b in dl):
+            cand.append(l)
+    return cand[0] if len(cand) == 1 else None
+
+
 def loop_updates(W, f, var_name):
     """for the single `for` loop over the inputs in f: do all paths of an iteration assign `var_name`?"""
     cx = W.ctx(f)
     cfg = cfg_of(f)
     G = W.guards(f)
-    var = None
-    for l in range(len(f.locals)):
-        if f.local_name(l) == var_name:
-            var = l
+    var = _base_local(W, f, var_name)
     if var is None:
         return None, 'no local named %s' % var_name
     defs = [d.bb for k, d in cx.full_defs(var)]
@@ -156,10 +176,23 @@ def o2(W, ob):
         ob.check(ok, 'delta_decode|length-prefix', 'the reader takes the length from 2 consecutive little-endian bytes',
                  'delta_decode reads the length as %s::from_le_bytes(%s)' % (ty, ks[:100]), where(dec, t.line))
     # pos advances by 2 and by len
+    # the read cursor, whatever it is called: the usize local of delta_decode with several definitions one of which adds the 2 prefix bytes to the local itself
     pos = None
-    for l in range(len(dec.locals)):
-        if dec.local_name(l) == 'pos':
-            pos = l
+    for l in range(dec.argc + 1, len(dec.locals)):
+        if (dec.local_ty(l) or '') != 'usize':
+            continue
+        ds_ = cxd.full_defs(l)
+        if len(ds_) < 2:
+            continue
+        for k_, d_ in ds_:
+            if k_ == 'stmt' and d_.rv.k == 'bin' and d_.rv.op in ('Add', 'AddWithOverflow', 'AddUnchecked') and d_.rv.a.is_place() and d_.rv.a.place.local == l and d_.rv.b.const_int() == 2:
+                pos = l
+            # with overflow checks the sum goes through a (value, flag) temporary: `_t = AddWithOverflow(pos, 2); assert; pos = move (_t.0)`
+            if k_ == 'stmt' and d_.rv.k == 'use' and d_.rv.a.is_place() and d_.rv.a.place.proj:
+                src_l = d_.rv.a.place.local
+                for k2, d2 in cxd.full_defs(src_l):
+                    if k2 == 'stmt' and d2.rv.k == 'bin' and d2.rv.a.is_place() and d2.rv.a.place.local == l and d2.rv.b.const_int() == 2:
+                        pos = l
     adv = []
     if pos is not None:
         for k, d in cxd.full_defs(pos):
@@ -174,7 +207,8 @@ def o2(W, ob):
         okz = False
         for t in z:
             ks = sorted(key(cx.expr_operand(a)) for a in t.args)
-            okz = any('base' in k for k in ks)
+            bl2 = _base_local(W, f)
+            okz = any('base' in k for k in ks) or (bl2 is not None and any(k.endswith('#%d' % bl2) or ('#%d)' % bl2) in k or ('#%d,' % bl2) in k or ('#%d[' % bl2) in k for k in ks))
         ob.check(len(z) == 1 and len(x) == 1 and okz, '%s|xor-zip-base' % nm, '%s XORs the input with the base element-wise' % nm,
                  '%s: zip sites=%d xor sites=%d zip-with-base=%s' % (nm, len(z), len(x), okz), where(f))
     # both reset the base to the plain (decoded) input in every iteration
@@ -184,7 +218,8 @@ def o2(W, ob):
                  '%s: %s -- writer and reader would use different bases for the next input' % (nm, why), where(f))
     # the value the base is set to: encode -> the input item; decode -> the very buffer that is pushed to the output
     def base_sources(f, cx):
-        base = [l for l in range(len(f.locals)) if f.local_name(l) == 'base']
+        bl_ = _base_local(W, f)
+        base = [bl_] if bl_ is not None else []
         out = []
         if base:
             G = W.guards(f)
@@ -419,6 +454,12 @@ def o4(W, ob):
     a1 = key(cx.expr_operand(rs[0].args[1]))
     ob.check(a1.startswith('(len(') and ' Add ' in a1, 'rle_decode|run-length', 'a run appends `len` bytes (resize to current length + len)',
              'rle_decode resizes to `%s`' % a1[:120], where(r, rs[0].line))
+    def _const_value(x):
+        if x[0] == 'int':
+            return int(x[1])
+        if x[0] == 'cst' and len(x) > 2 and isinstance(x[2], int):
+            return x[2]
+        return None
     # varint: seven bits per byte, continuation on bit 7 -- agreement with varinteger::encode
     ve = W.fn('varinteger::encode_with_offset')
     cxe = W.ctx(ve)
@@ -432,8 +473,9 @@ def o4(W, ob):
     for s_ in r.stmts():
         if s_.k == 'assign' and s_.rv.k == 'bin':
             e = cx.expr_rvalue(s_.rv)
-            if e[0] == 'bin' and e[3][0] == 'int' and int(e[3][1]) in (127, 128, 7):
-                consts_r.add((e[1].replace('WithOverflow', '').replace('Unchecked', ''), int(e[3][1])))
+            cv = _const_value(e[3]) if e[0] == 'bin' else None      # a literal or a named constant (`const VARINT_PAYLOAD_MASK: u8 = 127`)
+            if cv in (127, 128, 7):
+                consts_r.add((e[1].replace('WithOverflow', '').replace('Unchecked', ''), cv))
     w_ok = ('Shr', 7) in consts_w and ('BitOr', 128) in consts_w and (('Gt', 127) in consts_w or ('Ge', 128) in consts_w)
     r_ok = {('BitAnd', 127), ('BitAnd', 128), ('Add', 7)} <= consts_r
     ob.check(w_ok and r_ok, 'rle_decode|varint', 'varint groups: 7 bits per byte, least significant first, bit 7 = continuation, on both sides',
